@@ -32,6 +32,7 @@ import (
 	"time"
 
 	pb "github.com/libp2p/go-libp2p-pubsub/pb"
+	"github.com/libp2p/go-libp2p-pubsub/timecache"
 	"github.com/libp2p/go-libp2p/core/network"
 	"github.com/libp2p/go-libp2p/core/peer"
 	"github.com/libp2p/go-libp2p/core/protocol"
@@ -64,6 +65,43 @@ type vfGWCfg struct {
 	IDWThresh   int               `json:"idw_threshold,omitempty"`
 	Thresholds  string            `json:"thresholds,omitempty"`
 	ScoreTopics bool              `json:"score_topics,omitempty"`
+	Validators  []vfValCfg        `json:"validators,omitempty"`
+	Workers     int               `json:"workers,omitempty"`
+	ValQueue    int               `json:"valqueue,omitempty"`
+	ValThrottle int               `json:"valthrottle,omitempty"`
+	BlacklistTC bool              `json:"blacklist_timecached,omitempty"`
+	Strategy    string            `json:"seen_strategy,omitempty"`
+	IDFn        string            `json:"idfn,omitempty"` // "" default, "content": hash of data (default fn), "topic-content": per-topic fn
+}
+
+type vfValCfg struct {
+	Name      string            `json:"name"`
+	Topic     string            `json:"topic,omitempty"` // "" = default validator
+	Inline    bool              `json:"inline,omitempty"`
+	Gated     bool              `json:"gated,omitempty"`
+	Verdict   string            `json:"verdict,omitempty"` // A R I U(nknown value)
+	PerMsg    map[string]string `json:"permsg,omitempty"`
+	TimeoutMs int               `json:"timeout_ms,omitempty"`
+	Throttle  int               `json:"throttle,omitempty"`
+}
+
+type vfValInv struct {
+	val, msg string
+	gate     chan ValidationResult
+	timedOut bool
+	from     string
+}
+
+func vfVerdict(s string) ValidationResult {
+	switch s {
+	case "R":
+		return ValidationReject
+	case "I":
+		return ValidationIgnore
+	case "U":
+		return ValidationResult(99)
+	}
+	return ValidationAccept
 }
 
 // named gossipsub parameter sets (all accepted by validate())
@@ -142,29 +180,35 @@ type vfDelivery struct {
 }
 
 type vfGW struct {
-	x       *vfExec
-	cfg     *vfGWCfg
-	w       *vfWorld
-	n       *vfNode
-	fakes   map[string]*vfFake
-	order   []string // peer labels in config order
-	pcfg    map[string]vfPeerCfg
-	conn    map[string]bool
-	gated   map[string]bool
-	appMu   sync.Mutex
-	app     map[peer.ID]float64
-	topics  map[string]*Topic
-	subs    map[string][]*Subscription // live subscriptions per topic
-	relays  map[string][]RelayCancelFunc
-	nsubs   int
-	msgs    map[string]vfMsgSpec
-	trace   *vfMemTracer
-	t0      time.Time
-	wire    map[string][]vfRecv // frames received by each fake during the current step
-	deliv   []vfDelivery        // deliveries during the current step
-	lastPts []vfChoicePoint
-	lpubErr map[string]string
-	localID map[string]string // message ID of a locally published message -> its label
+	x        *vfExec
+	cfg      *vfGWCfg
+	w        *vfWorld
+	n        *vfNode
+	fakes    map[string]*vfFake
+	order    []string // peer labels in config order
+	pcfg     map[string]vfPeerCfg
+	conn     map[string]bool
+	gated    map[string]bool
+	appMu    sync.Mutex
+	app      map[peer.ID]float64
+	topics   map[string]*Topic
+	subs     map[string][]*Subscription // live subscriptions per topic
+	relays   map[string][]RelayCancelFunc
+	nsubs    int
+	msgs     map[string]vfMsgSpec
+	trace    *vfMemTracer
+	t0       time.Time
+	wire     map[string][]vfRecv // frames received by each fake during the current step
+	deliv    []vfDelivery        // deliveries during the current step
+	lastPts  []vfChoicePoint
+	lpubErr  map[string]string
+	localID  map[string]string // message ID of a locally published message -> its label
+	lmu      sync.Mutex
+	vmu      sync.Mutex
+	valCalls map[string]int // "validator|message" -> invocations
+	valPend  []*vfValInv
+	valLog   []string
+	held     map[string]bool // NewStream to this peer is blocked
 }
 
 type vfMemTracer struct {
@@ -192,7 +236,7 @@ func vfDefaultMsgs(topics []string) map[string]vfMsgSpec {
 func newVfGW(x *vfExec, cfg *vfGWCfg, msgs map[string]vfMsgSpec, extra ...Option) *vfGW {
 	g := &vfGW{x: x, cfg: cfg, w: newVfWorld(), fakes: map[string]*vfFake{}, pcfg: map[string]vfPeerCfg{}, conn: map[string]bool{},
 		gated: map[string]bool{}, app: map[peer.ID]float64{}, topics: map[string]*Topic{}, subs: map[string][]*Subscription{},
-		relays: map[string][]RelayCancelFunc{}, msgs: msgs, t0: time.Now(), wire: map[string][]vfRecv{}, lpubErr: map[string]string{}, localID: map[string]string{}}
+		relays: map[string][]RelayCancelFunc{}, msgs: msgs, t0: time.Now(), wire: map[string][]vfRecv{}, lpubErr: map[string]string{}, localID: map[string]string{}, valCalls: map[string]int{}, held: map[string]bool{}}
 	opts := []Option{WithMessageSignaturePolicy(StrictNoSign)}
 	if cfg.QueueSize > 0 {
 		opts = append(opts, WithPeerOutboundQueueSize(cfg.QueueSize))
@@ -202,6 +246,30 @@ func newVfGW(x *vfExec, cfg *vfGWCfg, msgs map[string]vfMsgSpec, extra ...Option
 	}
 	if cfg.SeenTTL > 0 {
 		opts = append(opts, WithSeenMessagesTTL(time.Duration(cfg.SeenTTL)*time.Second))
+	}
+	if cfg.Workers > 0 {
+		opts = append(opts, WithValidateWorkers(cfg.Workers))
+	}
+	if cfg.ValQueue > 0 {
+		opts = append(opts, WithValidateQueueSize(cfg.ValQueue))
+	}
+	if cfg.ValThrottle > 0 {
+		opts = append(opts, WithValidateThrottle(cfg.ValThrottle))
+	}
+	if cfg.BlacklistTC {
+		bl, _ := NewTimeCachedBlacklist(time.Hour)
+		opts = append(opts, WithBlacklist(bl))
+	}
+	if cfg.Strategy == "last" {
+		opts = append(opts, WithSeenMessagesStrategy(timecache.Strategy_LastSeen))
+	}
+	if cfg.IDFn == "content" {
+		opts = append(opts, WithMessageIdFn(vfContentID))
+	}
+	for _, vc := range cfg.Validators {
+		if vc.Topic == "" {
+			opts = append(opts, WithDefaultValidator(g.validatorFn(vc), vfValOpts(vc)...))
+		}
 	}
 	if cfg.Tracer {
 		g.trace = &vfMemTracer{}
@@ -256,12 +324,97 @@ func newVfGW(x *vfExec, cfg *vfGWCfg, msgs map[string]vfMsgSpec, extra ...Option
 		g.pcfg[pc.Name] = pc
 		g.fakes[pc.Name] = newVfFake(g.w, pc.Name, vfProtoByName[pc.Proto])
 	}
+	for _, vc := range cfg.Validators {
+		if vc.Topic != "" {
+			if err := n.ps.RegisterTopicValidator(vc.Topic, g.validatorFn(vc), vfValOpts(vc)...); err != nil {
+				panic(err)
+			}
+		}
+	}
 	synctest.Wait()
 	for _, ev := range cfg.Prefix {
 		g.apply(ev)
 	}
 	g.clearStep()
 	return g
+}
+
+func vfContentID(m *pb.Message) string { return "cid:" + string(m.GetData()) }
+
+func vfValOpts(vc vfValCfg) []ValidatorOpt {
+	var o []ValidatorOpt
+	if vc.Inline {
+		o = append(o, WithValidatorInline(true))
+	}
+	if vc.TimeoutMs > 0 {
+		o = append(o, WithValidatorTimeout(time.Duration(vc.TimeoutMs)*time.Millisecond))
+	}
+	if vc.Throttle > 0 {
+		o = append(o, WithValidatorConcurrency(vc.Throttle))
+	}
+	return o
+}
+
+// validatorFn builds a user validator bound to the harness: it counts
+// invocations per message and, when gated, parks until the explorer releases it.
+func (g *vfGW) validatorFn(vc vfValCfg) ValidatorEx {
+	return func(ctx context.Context, from peer.ID, msg *Message) ValidationResult {
+		label := g.msgLabel(msg.Message)
+		g.vmu.Lock()
+		g.valCalls[vc.Name+"|"+label]++
+		g.valLog = append(g.valLog, vc.Name+"("+label+")")
+		verdict := vc.Verdict
+		if v, ok := vc.PerMsg[label]; ok {
+			verdict = v
+		}
+		if !vc.Gated {
+			g.vmu.Unlock()
+			return vfVerdict(verdict)
+		}
+		inv := &vfValInv{val: vc.Name, msg: label, gate: make(chan ValidationResult, 1), from: vfName(from)}
+		g.valPend = append(g.valPend, inv)
+		g.vmu.Unlock()
+		select {
+		case r := <-inv.gate:
+			return r
+		case <-ctx.Done():
+			g.vmu.Lock()
+			inv.timedOut = true
+			g.vmu.Unlock()
+			return ValidationIgnore
+		}
+	}
+}
+
+// pendingVals lists the parked validator invocations ("V|M"), sorted.
+func (g *vfGW) pendingVals() []string {
+	g.vmu.Lock()
+	defer g.vmu.Unlock()
+	var out []string
+	var keep []*vfValInv
+	for _, inv := range g.valPend {
+		if inv.timedOut || inv.gate == nil {
+			continue
+		}
+		keep = append(keep, inv)
+		out = append(out, inv.val+"|"+inv.msg)
+	}
+	g.valPend = keep
+	sort.Strings(out)
+	return out
+}
+
+func (g *vfGW) release(val, msg string, r ValidationResult) bool {
+	g.vmu.Lock()
+	defer g.vmu.Unlock()
+	for _, inv := range g.valPend {
+		if inv.val == val && inv.msg == msg && !inv.timedOut && inv.gate != nil {
+			inv.gate <- r
+			inv.gate = nil
+			return true
+		}
+	}
+	return false
 }
 
 func (g *vfGW) now() time.Duration { return time.Since(g.t0) }
@@ -317,6 +470,8 @@ func (g *vfGW) msgID(m string) string {
 
 // msgLabel maps a wire message back to its label in the message table.
 func (g *vfGW) msgLabel(m *pb.Message) string {
+	g.lmu.Lock()
+	defer g.lmu.Unlock()
 	id := DefaultMsgIdFn(m)
 	for _, k := range vfSortedKeys(g.msgs) {
 		if g.msgID(k) == id {
@@ -332,6 +487,8 @@ func (g *vfGW) msgLabel(m *pb.Message) string {
 }
 
 func (g *vfGW) idLabel(id string) string {
+	g.lmu.Lock()
+	defer g.lmu.Unlock()
 	for _, k := range vfSortedKeys(g.msgs) {
 		if g.msgID(k) == id {
 			return k
@@ -494,6 +651,8 @@ func (g *vfGW) apply(evFull string) {
 		synctest.Wait()
 		if g.n.gs != nil {
 			g.n.eval(func() {
+				g.lmu.Lock()
+				defer g.lmu.Unlock()
 				for id, m := range g.n.gs.mcache.msgs {
 					if peer.ID(m.GetFrom()) == g.n.id() {
 						g.localID[id] = "local:" + strings.TrimRight(string(m.GetData()), "\x00")
@@ -524,6 +683,20 @@ func (g *vfGW) apply(evFull string) {
 		g.setGate(arg(1), false)
 	case "bl":
 		g.n.ps.BlacklistPeer(g.pid(arg(1)))
+	case "blimpl":
+		// the application adds the peer to the configured blacklist implementation directly
+		g.n.eval(func() { g.n.ps.blacklist.Add(g.pid(arg(1))) })
+	case "vrel":
+		g.release(arg(1), arg(2), vfVerdict(arg(3)))
+	case "hold":
+		g.w.setPolicy(g.n.id(), g.pid(arg(1)), vfStreamBlock)
+		g.held[arg(1)] = true
+	case "release":
+		g.w.setPolicy(g.n.id(), g.pid(arg(1)), vfStreamOK)
+		g.held[arg(1)] = false
+	case "failstream":
+		g.w.setPolicy(g.n.id(), g.pid(arg(1)), vfStreamFail)
+		g.held[arg(1)] = false
 	default:
 		panic("unknown event " + ev)
 	}
@@ -743,6 +916,7 @@ func (g *vfGW) canon() string {
 	for _, t := range vfSortedKeys(g.subs) {
 		fmt.Fprintf(&sb, "\nsubs[%s]=%d relays=%d", t, len(g.subs[t]), len(g.relays[t]))
 	}
+	fmt.Fprintf(&sb, "\nvalpending=%v held=%v", g.pendingVals(), vfKeys(g.held))
 	return sb.String()
 }
 
@@ -788,8 +962,8 @@ func vfGetPrune(r *RPC, topic string) *pb.ControlPrune {
 
 type vfBogusRecord struct{ b []byte }
 
-func (r *vfBogusRecord) Domain() string                { return "vf-bogus-domain" }
-func (r *vfBogusRecord) Codec() []byte                 { return []byte{0x03, 0x99} }
+func (r *vfBogusRecord) Domain() string                 { return "vf-bogus-domain" }
+func (r *vfBogusRecord) Codec() []byte                  { return []byte{0x03, 0x99} }
 func (r *vfBogusRecord) MarshalRecord() ([]byte, error) { return r.b, nil }
 func (r *vfBogusRecord) UnmarshalRecord(b []byte) error { r.b = b; return nil }
 
